@@ -34,6 +34,12 @@ def cases(tier, seed):
     # lists that do not fit, handed over in one call: whatever the buffer holds after the refusal must still be consistent
     for sizes in ([66, 3], [30, 30, 30], [1, 68], [34, 34, 1]):
         yield {"k": "overfull", "sizes": sizes, "fill": "default", "files": []}
+    # what the command line tools leave in a --to_dsk target that is already there: whatever kind of file it was before, a target the tool
+    # wrote to is a disk image afterwards (a refusal that leaves it alone is fine)
+    for tool in ("asm", "futil"):
+        for pre in ("absent", "empty", "junk", "cas", "blankdsk", "dskfiles", "shortdsk", "onebyte"):
+            for append in (True, False):
+                yield {"k": "cli", "tool": tool, "pre": pre, "append": append, "fill": "default", "files": []}
     # fill histories: k-granule files until the disk is full (the images on the way are checked)
     for k in (1, 2, 3, 5, 9, 17, 34):
         yield {"k": "fill", "gran": k, "fill": "default", "files": []}
@@ -57,6 +63,41 @@ def check_case(case):
         except Exception as e:
             res.update(state="writer-error", outcome="writer-error")
             return res       # reported by C07 / C15
+    elif case["k"] == "cli":
+        import os, shutil
+        from .. import cli
+        from ..ref import tape
+        from . import c16
+        cell = "cli|{}|{}|{}".format(case["tool"], case["pre"], "append" if case["append"] else "new")
+        td = common.mkdtemp(prefix="c08_")
+        cwd = os.getcwd()
+        try:
+            os.chdir(td)
+            pre = {"absent": None, "empty": b"", "onebyte": b"\x00", "junk": bytes((i * 37 + 11) & 0xFF for i in range(700)).replace(b"\x55\x3c", b"\x55\x3d"),
+                   "cas": tape.write([dict(name="OLD", type=2, dtype=0, load=0x2000, exec=0x2000, data=bytes(range(60)))]),
+                   "blankdsk": dskfs.write([]), "shortdsk": dskfs.write([])[:-256]}.get(case["pre"])
+            if case["pre"] == "dskfiles":
+                c16.write_source("out.dsk", "dsk", [0, 1])
+                pre = open("out.dsk", "rb").read()
+            elif pre is not None:
+                open("out.dsk", "wb").write(pre)
+            if case["tool"] == "asm":
+                open("p.asm", "w").write(" NAM PROG\n ORG $0E00\nSTART LDA #1\n RTS\n END START\n")
+                status, out = cli.assembler("p.asm", to_dsk="out.dsk", append=case["append"])
+            else:
+                c16.write_source("src.cas", "cas", [0, 2])
+                status, out = cli.file_util("src.cas", to_dsk="out.dsk", append=case["append"])
+            post = open("out.dsk", "rb").read() if os.path.exists("out.dsk") else None
+        finally:
+            os.chdir(cwd)
+            shutil.rmtree(td, ignore_errors=True)
+        if str(status).startswith(("TRACEBACK", "HANG")):
+            viol.append({"component": "fsck", "cell": cell, "symptom": "command line tool ends in {}".format(str(status).split()[0].lower()),
+                         "expected": "a disk image or a refusal", "observed": str(status), "input": case})
+        if post is not None and post != pre:
+            images.append((cell, post, None))
+        else:
+            res["outcome"] = "refused" if post == pre and pre is not None else "nothing written"
     elif case["k"] == "overfull":
         from cocoasm.virtualfiles.disk import DiskFile
         df = DiskFile()
@@ -102,7 +143,7 @@ def check_case(case):
             detail = next(p[1] for p in probs if p[0] == cat)
             viol.append({"component": "fsck", "cell": cell, "symptom": "fsck: " + cat, "expected": "consistent Disk BASIC filesystem",
                          "observed": detail, "input": dict(case, nfiles=len(files))})
-        if not probs:
+        if not probs and files is not None:
             # "... the stream obtained by concatenating the chain's granules in chain order is header, data, trailer"
             try:
                 got = {f["name"].strip().upper(): f for f in dskfs.read_files(img)}
@@ -122,7 +163,7 @@ def check_case(case):
                     "fewer" if len(ents) < len(files) else "more", "n"), "expected": len(files), "observed": len(ents), "input": case})
         if viol:
             break
-    res["state"] = "img:{}".format(crc)
+    res["state"] = "img:{}".format(crc) if case["k"] != "cli" else "cli:{}:{}:{}".format(case["pre"], res["outcome"], crc)
     if viol:
         res["viol"] = viol
         res["outcome"] = "violation"
